@@ -1830,10 +1830,11 @@ def validate(kind: str, expr, name: str, signature: str, replay_spec: dict) -> R
                 w = witness(out.pair[0], out.pair[1])
             except Exception:
                 w = None
-        if out.pair is not None and w is None and out.backend != "nf":
-            # an SMT countermodel over opaque atoms that no concrete point realises is not a verdict
-            return Result(out_of_reach=(name, f"undecided: {out.backend} countermodel not realisable at a concrete point, nf "
-                                              f"undecided | rendering: {s}"), rendered=s)
+        if out.pair is not None and w is None:
+            # neither an SMT countermodel over opaque atoms nor a "non-zero polynomial over independent atoms" is a verdict
+            # unless a concrete point realises it: numeric radicals (3^(1/9), 62208^(1/9), ...) are NOT independent atoms
+            return Result(out_of_reach=(name, f"undecided: the {out.backend} refutation is not realised at any concrete point "
+                                              f"(algebraically dependent atoms?) | rendering: {s}"), rendered=s)
         detail = f"rendering {s!r} reads as {show(canon(rd))} ; original {show(canon(expr))} ; {out.detail}"
         if w:
             detail += f" ; differs at {w[0]}: read={w[1]:.12g} original={w[2]:.12g}"
